@@ -21,7 +21,11 @@ type item struct {
 }
 
 type FileQueue struct {
-	Home   string
+	Home string
+
+	// FileRW guards the file and Offset, the position where the next record is written.
+	// Records are written by the callers of Put and PutBatch and by the write goroutine (BeansDB.After)
+	FileRW sync.Mutex
 	Offset int64
 
 	IndexRW sync.RWMutex
@@ -157,11 +161,9 @@ func (queue *FileQueue) checkFile() error {
 		}
 	} else {
 		log.Debugf("load file %s", queue.path())
-		offset, err := queue.scanFile(queue.path(), queue.Offset)
+		_, err := queue.scanFile(queue.path(), queue.Offset)
 		if err == nil || err == ErrEOF {
-			queue.Offset = offset
-			// cut off what is behind the last intact record. New records are written from there, and the rest of a torn write must never be read as records later
-			return queue.truncateFile(queue.path(), offset)
+			return nil
 		} else {
 			return err
 		}
@@ -276,13 +278,26 @@ func (queue *FileQueue) scanFile(filePath string, offset int64) (int64, error) {
 		return -1, err
 	}
 
-	for _, record := range records {
-		queue.Offset = record.offset
-		queue.deliver(record.flg, record.key, record.val)
+	// the write goroutine starts to write the records while they are replayed, and it appends records of its own (BeansDB.After).
+	// They must go behind the last record of the file, not to the position of the scan
+	queue.FileRW.Lock()
+	// cut off what is behind the last intact record. New records are written from there, and the rest of a torn write must never be read as records later
+	err = queue.truncateFile(filePath, end)
+	if err != nil {
+		queue.FileRW.Unlock()
+		return -1, err
 	}
 	queue.Offset = end
+	for _, record := range records {
+		queue.setIndex(&item{flg: record.flg, key: record.key, val: record.val, offset: record.offset, refCnt: 1})
+	}
+	queue.FileRW.Unlock()
+
+	for _, record := range records {
+		queue.SyncFileDB.Put(record.flg, record.key, record.val)
+	}
 	log.Debugf("load file %s: %d records, %d bytes", filePath, len(records), end)
-	return queue.Offset, ErrEOF
+	return end, ErrEOF
 }
 
 func (queue *FileQueue) encodeBatchItems(items []*BatchItem) ([][]byte, error) {
@@ -347,17 +362,21 @@ func (queue *FileQueue) Put(flag uint32, key []byte, val []byte) error {
 
 	path := queue.path()
 
+	queue.FileRW.Lock()
 	// TODO del tmp file.
 	queue.emptyFile(path)
 	length, err := FileUtilsFlush(path, queue.Offset, buf)
 	if err != nil {
+		queue.FileRW.Unlock()
 		return err
-	} else {
-		// 触发写入leveldb中
-		queue.deliver(flag, key, val)
-		queue.Offset += length
-		return nil
 	}
+	queue.setIndex(&item{flg: flag, key: key, val: val, offset: queue.Offset, refCnt: 1})
+	queue.Offset += length
+	queue.FileRW.Unlock()
+
+	// 触发写入leveldb中
+	queue.SyncFileDB.Put(flag, key, val)
+	return nil
 }
 
 func (queue *FileQueue) PutBatch(items []*BatchItem) error {
@@ -374,35 +393,27 @@ func (queue *FileQueue) PutBatch(items []*BatchItem) error {
 
 	path := queue.path()
 	totalBuf := queue.mergeBatchItems(append([][]byte{headBuf}, tmpBuf...))
+
+	queue.FileRW.Lock()
 	queue.emptyFile(path)
 	_, err = FileUtilsFlush(path, queue.Offset, totalBuf)
 	if err != nil {
+		queue.FileRW.Unlock()
 		return err
 	}
-
 	queue.Offset += int64(len(headBuf))
-	queue.deliverBatch(tmpBuf, items)
-	return nil
-}
-
-func (queue *FileQueue) deliverBatch(tmpBuf [][]byte, items []*BatchItem) {
 	for index := 0; index < len(tmpBuf); index++ {
 		tmp := items[index]
-		queue.deliver(tmp.Flg, tmp.Key, tmp.Val)
+		queue.setIndex(&item{flg: tmp.Flg, key: tmp.Key, val: tmp.Val, offset: queue.Offset, refCnt: 1})
 		queue.Offset += int64(len(tmpBuf[index]))
 	}
-}
+	queue.FileRW.Unlock()
 
-func (queue *FileQueue) deliver(flag uint32, key []byte, val []byte) {
-	queue.setIndex(&item{
-		flg:    flag,
-		key:    key,
-		val:    val,
-		offset: queue.Offset,
-		refCnt: 1,
-	})
-
-	queue.SyncFileDB.Put(flag, key, val)
+	// the records are in the file and can be read from the index. Hand them to the write goroutine outside the lock, it may wait for the lock itself
+	for index := 0; index < len(items); index++ {
+		queue.SyncFileDB.Put(items[index].Flg, items[index].Key, items[index].Val)
+	}
+	return nil
 }
 
 func (queue *FileQueue) afterPut(op *Inject) {
